@@ -216,12 +216,30 @@ class Recorder:
         self.setups_skipped = 0
         self.couplings = []
         self.ligands = []
+        self.pipes = []
+        self.pipes_skipped = 0
+        self.pre = {}
 
     def __enter__(self):
         import propka.conformation_container as CC
+        import propka.input as PI
+        from . import pipeline_common as PC
         self.CC = CC
+        self.PI = PI
         self.orig = CC.ConformationContainer.calculate_pka
+        self.orig_precheck = PI.protein_precheck
         rec = self
+
+        def precheck(conformations, names):
+            # read_molecule_file calls this right after top_up_conformations: the atoms as the set-up pipeline receives them
+            for n in names:
+                c = conformations[n]
+                try:
+                    rec.pre[id(c)] = (c, PC.pre_request(c))
+                except OutOfModel as e:
+                    rec.pre[id(c)] = (c, e)
+            return rec.orig_precheck(conformations, names)
+        PI.protein_precheck = precheck
 
         def wrapped(conf, version, options):
             try:
@@ -245,13 +263,30 @@ class Recorder:
                 rec.setups_skipped += 1
             shared = bool(getattr(conf.parameters, "shared_determinants", 0))
             rp = "1" if conf.parameters.remove_penalised_group else "0"
+            pre = rec.pre.pop(id(conf), None)
+            pipe = None
+            if pre is not None and pre[0] is conf:
+                try:
+                    if isinstance(pre[1], Exception):
+                        raise pre[1]
+                    if PC.prep_fingerprint(conf.parameters) != PC.shipped_fingerprint():
+                        raise OutOfModel("set-up parameters differ from the shipped file")
+                    mo = conf.molecular_container.options
+                    pipe = [conf.name, pre[1], rp, "1" if getattr(mo, "protonate_all", False) else "0", PC.to_arg(mo), PC.export_ext(conf)]
+                except OutOfModel:
+                    rec.pipes_skipped += 1
             rec.orig(conf, version, options)
-            rec.pairs.append((conf.name, req, real_records(conf), rp, shared, type(version).__name__))
+            real = real_records(conf)
+            rec.pairs.append((conf.name, req, real, rp, shared, type(version).__name__))
+            if pipe is not None:
+                rec.pipes.append(tuple(pipe) + (real, (not shared) and type(version).__name__ == "VersionA"))
         CC.ConformationContainer.calculate_pka = wrapped
         return self
 
     def __exit__(self, *a):
         self.CC.ConformationContainer.calculate_pka = self.orig
+        self.PI.protein_precheck = self.orig_precheck
+        self.pre = {}
 
 
 def check_pairs(pairs, tol=0.0):
@@ -454,6 +489,32 @@ class tie:
                    "determinants; counts/partners/order exact, numbers 1e-9)" % (n, self.what, ngroups, ndets),
                    not bad, "; ".join("%s: %s" % (c, "; ".join(d[:3])) for c, d in bad[:2])[:600])
         self.bad = bad
+        # the set-up pipeline: from the atoms after top_up_conformations to the state calculate_pka starts from, and on to the records
+        from . import pipeline_common as PC
+        seenp, psample = set(), []
+        for p in self.rec.pipes:
+            key = hash((p[1], p[2], p[3], p[4]))
+            if key not in seenp:
+                seenp.add(key)
+                psample.append(p)
+        if len(psample) > self.limit:
+            step = len(psample) / float(self.limit)
+            psample = [psample[int(i * step)] for i in range(self.limit)]
+        npipe, nps, pbad = PC.check_pipes(psample)
+        ctx.count("pipeline: distinct conformations taken from the parsed atoms to the scoring input by the Lean model", npipe)
+        ctx.count("pipeline: of these also scored by the Lean model after its own set-up", nps)
+        ctx.count("pipeline: atoms compared (incl. built hydrogens)", sum(len(p[5][0].split(";")) for p in psample))
+        ctx.count("pipeline: hetero atoms typed", sum(1 for p in psample for a in p[1].split(";") if a.startswith("1|")))
+        ctx.count("pipeline: conformations with --protonate-all", sum(1 for p in psample if p[3] == "1"))
+        ctx.count("pipeline: conformations outside the model (other parameter files, pre-bonded atoms)", self.rec.pipes_skipped)
+        if npipe or self.rec.pipes_skipped == 0:
+            ctx.oblige("correspondence: Lean set-up pipeline (bonding by cells, SYBYL typing, pi electrons, protonation, group extraction and "
+                       "set-up, sort_atoms, covalent coupling; then Scoring.score) = the state the real conformation holds when calculate_pka starts "
+                       "(every atom incl. built hydrogens: order, name, bonds, coordinates bit for bit, group type, SYBYL type; every group: class, "
+                       "label, charge, model pKa, flags, centre, interaction atoms, coupling) and the records calculate_pka leaves, on %d distinct "
+                       "conformations of %s" % (npipe, self.what),
+                       not pbad, "; ".join("%s: %s" % (c, "; ".join(d[:2])) for c, d in pbad[:2])[:700])
+        self.pbad = pbad
         # the group set-up (centres and interaction atoms) through the set-up model, on the same conformations
         seen2, ssample = set(), []
         for s in self.rec.setups:
